@@ -31,7 +31,11 @@ def certFast {p d : Nat} (hd : 0 < d) (hp : 0 < p) (inf : Option (Fin p)) (A : M
 /-- parity matrix of a family as the driver's oracle uses it -/
 def famMatrix (fam0 : String) (d p : Nat) : Except String (Mat GF256 p d) :=
   -- `a+b+c`: several matrix options in this order; every matrix option resets the others, so the LAST one decides
-  let fam := (((fam0.splitOn "+").filter (· ≠ "default")).getLast?).getD "default"   -- "default" sets no option
+  -- `xor` (WithFastOneParityMatrix) is a separate flag: with exactly one parity shard it wins over every matrix family,
+  -- otherwise it is ignored
+  let toks := fam0.splitOn "+"
+  let famL := (((toks.filter fun t => t ≠ "default" && t ≠ "xor")).getLast?).getD "default"   -- "default" sets no option
+  let fam := if toks.length > 1 && toks.contains "xor" then (if p = 1 then "xor" else famL) else (((toks.filter (· ≠ "default")).getLast?).getD "default")
   if hd : d = 0 then .error "InvShardNum" else
   if hp : p = 0 then .error "noparity" else
   if d + p > 256 then .error "MaxShardNum" else
@@ -70,7 +74,9 @@ structure GenOut where
 
 def genMatrix (fam0 : String) (d p : Nat) : Except String GenOut :=
   -- `a+b+c`: several matrix options; the last matrix option decides (see `famMatrix`)
-  let fam := if fam0.contains '+' then (((fam0.splitOn "+").filter (· ≠ "default")).getLast?).getD "default" else fam0
+  let toks := fam0.splitOn "+"
+  let famL := (((toks.filter fun t => t ≠ "default" && t ≠ "xor")).getLast?).getD "default"
+  let fam := if toks.length > 1 then (if toks.contains "xor" then (if p = 1 then "xor" else famL) else famL) else fam0
   if hd : d = 0 then .error "InvShardNum" else
   if hp : p = 0 then .error "noparity" else
   if d + p > 256 then .error "MaxShardNum" else
@@ -244,7 +250,7 @@ def opRec (args : List String) : String :=
           else "-"
         -- for a non-MDS generator (par1, custom) only L1 knows whether the sub-matrix is singular
         if l1 == "-" then s!"{l0} | l1=-"
-        else if fam == "par1" || fam.startsWith "custom:" then s!"{l1} | l1=only"
+        else if fam == "par1" || fam.startsWith "custom:" || fam.startsWith "sparse:" then s!"{l1} | l1=only"
         else s!"{l0} | l1={if l1 == l0 then "1" else "0"}"
     | _, _, _, _ => "bad-op"
   | _ => "bad-op"
